@@ -76,6 +76,66 @@ class C04Lowerer(Lowerer):
             return
         return super().ret(n, sp)
 
+    # ---------------------------------------------------------------- member calls with unit rules (arguments not lowered)
+    def membercall(self, n):
+        me = self.skip(n['inner'][0])
+        if me.get('kind') == 'MemberExpr' and me.get('inner'):
+            base = self.skip(me['inner'][0])
+            try:
+                cls = self.class_key(base, me.get('isArrow'))
+            except Unsupported:
+                cls = None
+            if cls == 'QTimer' and me.get('name') in ('start', 'stop', 'setInterval', 'isActive'):
+                return self.lower_timer(n, me, base)
+            if cls == 'StreamAckManager' and me.get('name') == 'send':
+                return self.lower_send(n, me, base)
+        return super().membercall(n)
+
+    def lower_timer(self, n, me, base):
+        """QTimer::start() / start(duration) / stop() / setInterval(duration): the duration expression (chrono arithmetic) is not
+        lowered -- it must be free of side effects; the timer model only records armed / not armed"""
+        args = [a for a in n['inner'][1:] if a.get('kind') != 'CXXDefaultArgExpr']
+        for a in args:
+            if not self.pure(a):
+                raise Unsupported('QTimer::%s with an argument that has side effects' % me['name'])
+        obj = self.expr(base) if me.get('isArrow') else self.addr(base)
+        name = me['name']
+        key = 'QTimer::%s/%d' % (name, len(args))
+        if key == 'QTimer::isActive/0':
+            self.fire(key)
+            return '((%s)->active)' % obj
+        fn = {'QTimer::start/0': 'QTimer_start', 'QTimer::start/1': 'QTimer_start_with_interval', 'QTimer::stop/0': 'QTimer_stop',
+              'QTimer::setInterval/1': 'QTimer_setInterval'}.get(key)
+        if fn is None:
+            raise Unsupported('call ' + key)
+        self.fire(key)
+        return '%s(%s)' % (fn, obj)
+
+    def lower_send(self, n, me, base):
+        """streamAckManager.send(<stanza object>): the QXmppPacket is built from a stanza local; what goes to the wire is classified
+        by the C++ type of that stanza (STANZA_<T>)"""
+        args = [a for a in n['inner'][1:] if a.get('kind') != 'CXXDefaultArgExpr']
+        if len(args) != 1:
+            raise Unsupported('StreamAckManager::send/%d' % len(args))
+        a = self.skip(args[0])
+        while a.get('kind') in ('CXXConstructExpr', 'ImplicitCastExpr', 'MaterializeTemporaryExpr', 'CXXBindTemporaryExpr') and a.get('inner'):
+            inner = [c for c in a['inner'] if c.get('kind') != 'CXXDefaultArgExpr']
+            if len(inner) != 1:
+                raise Unsupported('StreamAckManager::send of a packet built from %d arguments' % len(inner))
+            a = self.skip(inner[0])
+        if a.get('kind') != 'DeclRefExpr':
+            raise Unsupported('StreamAckManager::send of %s' % a.get('kind'))
+        t = short(qt(a))
+        if not re.fullmatch(r'\w+', t):
+            raise Unsupported('StreamAckManager::send of %s' % qt(a))
+        self.expr(a)   # the stanza object must be a known local
+        self.need_stanza = getattr(self, 'need_stanza', set())
+        self.need_stanza.add(t)
+        obj = self.addr(base) if not me.get('isArrow') else self.expr(base)
+        self.repo_callees.add('StreamAckManager_send_stanza')
+        self.fire('StreamAckManager::send<%s>' % t)
+        return 'StreamAckManager_send_stanza(%s, STANZA_%s)' % (obj, t)
+
     # ---------------------------------------------------------------- free-function calls with unit rules
     def fncall(self, n):
         rd = self.callee_ref(n)
@@ -335,13 +395,16 @@ def profile(listener_type_keys):
         'StreamErrorElement': 'StreamErrorElement', PRIV + 'StreamErrorElement': 'StreamErrorElement',
         'typename remove_reference<StreamErrorElement>::type': 'StreamErrorElement',
         'StarttlsProceed': 'qnonza', PRIV + 'StarttlsProceed': 'qnonza',
+        'QTimer': 'QTimer', 'QXmppPingIq': 'QXmppPingIq',
+        'QXmppTask<QXmpp::SendResult>': 'qtask', 'QXmppTask<std::variant<QXmpp::SendSuccess,QXmppError>>': 'qtask',
+        'QXmpp::TimeoutError': 'qtimeout', 'TimeoutError': 'qtimeout',
     }
     for k in listener_type_keys:
         types[k] = 'Listener'
     class_types = {'QXmppOutgoingClient', 'QXmppOutgoingClientPrivate', 'QXmppConfiguration', 'QXmppStreamFeatures', 'QSslSocket', 'XmppSocket',
                    'StarttlsManager', 'NonSaslAuthManager', 'SaslManager', 'Sasl2Manager', 'BindManager', 'C2sStreamManager', 'CsiManager',
                    'PingManager', 'StreamAckManager', 'OutgoingIqManager', 'Listener', 'OptSasl2Feature', 'Sasl2StreamFeature', 'ConnectionError',
-                   'OptNonza', 'StreamErrorResult', 'StreamErrorElement'}
+                   'OptNonza', 'StreamErrorResult', 'StreamErrorElement', 'QTimer', 'QXmppPingIq'}
     calls = {
         'op->:QXmppOutgoingClientPrivate*': ('expr', '{0}'),
         # --- Qt
@@ -383,6 +446,14 @@ def profile(listener_type_keys):
         'C2sStreamManager::handleElement/1': ('callee', 'C2sStreamManager_handleElement'),
         'CsiManager::onStreamFeatures/1': ('callee', 'CsiManager_onStreamFeatures'),
         'PingManager::onDataReceived/0': ('callee', 'PingManager_onDataReceived'),
+        'PingManager::sendPing/0': ('callee', 'PingManager_sendPing'),
+        'StreamAckManager::enabled/0': ('callee', 'StreamAckManager_enabled'),
+        'StreamAckManager::sendAcknowledgementRequest/0': ('callee', 'StreamAckManager_sendAcknowledgementRequest'),
+        'ctor:QXmppPingIq()': ('zero',),
+        'QXmppPingIq::setTo/1': ('expr', '({0})->to = {1}'),
+        'QXmppConfiguration::domain/0': ('callee', 'QXmppConfiguration_domain'),
+        'QXmppConfiguration::keepAliveTimeout/0': ('callee', 'QXmppConfiguration_keepAliveTimeout'),
+        'QXmppConfiguration::keepAliveInterval/0': ('callee', 'QXmppConfiguration_keepAliveInterval'),
         'NonSaslAuthManager::handleElement/1': ('callee', 'NonSaslAuthManager_handleElement'),
         'SaslManager::handleElement/1': ('callee', 'SaslManager_handleElement'),
         'Sasl2Manager::handleElement/1': ('callee', 'Sasl2Manager_handleElement'),
@@ -405,6 +476,7 @@ def profile(listener_type_keys):
         'op=:Listener:QXmppOutgoingClient*': listener_assign,
         'op=:Listener:C2sStreamManager*': listener_assign,
         'ctor:ConnectionError(int)': ('init', '{{ {0} }}'),
+        'ctor:ConnectionError(qtimeout)': ('init', '{{ -1 }}'),
         'qpromise::finish/0': ('fnmut', 'qpromise_finish'),
         'qstr::clear/0': ('expr', '{0} = 0'),
         'C2sStreamManager::onStreamStart/0': ('callee', 'C2sStreamManager_onStreamStart'),
@@ -422,6 +494,8 @@ def profile(listener_type_keys):
         'ctor:OptNonza(qnonza)': ('init', '{{ true }}'),
     }
     p = opaque_profile(types=types, class_types=class_types, calls=calls,
-                       pure_fns={'configuration', 'socket', 'streamSecurityMode', 'tlsMode', 'domain', 'user', 'jidBare'})
+                       pure_fns={'configuration', 'socket', 'streamSecurityMode', 'tlsMode', 'domain', 'user', 'jidBare', 'duration_cast', 'operator""s'})
     p.default_args['qstr'] = '0'
+    # `enum { Current, TryNext } nextAddressState;` -- strip_type() of `enum (unnamed enum at <path>/QXmppOutgoingClient_p.h:L:C)`
+    p.type_patterns.append((re.compile(r'(QXmppOutgoingClientPrivate::)?\(unnamed at [^)]*QXmppOutgoingClient_p\.h:\d+:\d+\)'), 'int'))
     return p
